@@ -232,7 +232,7 @@ def run(ck: Check):
                "random Walsh / conv3d / dense with 40000 inputs), saves state_dict and a compiled library (num_bits in {8,16,32,64}); process B (seed s2, RNG advanced by "
                "a random amount) rebuilds the layers with the same constructor arguments, loads the state (once into a fresh model, once into a model that was already run in training and eval mode, with no "
                "mode switch afterwards) and the library and evaluates a 100-row probe batch (longer than a word); outputs must be identical to A's. Non-trivial: seed s2 != s1. "
-               "Distinct = canonical JSON of (kind, model id, seeds, num_bits).")
+               "Distinct = canonical JSON of (kind, model id, seeds, num_bits). Also: dense_load / conv_load evaluated in the kernel on 40 real, foreign, old-format and tampered checkpoints against load_state_dict; a path saved to twice with models of one architecture, loaded in another process.")
     ck.translate("Persist", t_persist.gen_persist)
     ck.translate("PersistSrc", t_persist.gen_persist_src)
     ck.translate("LibIO", t_libio.gen_libio)
